@@ -4,9 +4,9 @@ import json, os
 root = os.path.dirname(os.path.dirname(os.path.abspath(__file__)))
 WHAT = {
  "C01": "1 895 names and 69 103 strings x 3 option sets; 40x40 pairs x 32 option sets; 24^3 triples; trees with 1-4 leaves, depth <= 3 (up to 15 146 shapes); nesting to 255; wide containers (2..1000 siblings of every atom); 21 x 21 pairs of long strings (1..1100 bytes, hex / literal / escaped, no common prefix); ~5 000 numbers by digit structure (1-19 significant digits at every decimal-point position, neighbours of 2^53 and 2^63)",
- "C02": "all programs of <= 1 operation x dev <= 1 over the 9 x 2 x 2 x 4 configuration matrix; <= 2 operations x dev <= 1 on a non-seekable 1.7 and a seekable RC4 1.4 configuration; <= 2 operations x dev 0 on 4 + 2 human-readable + encrypted representatives; operations include Put of a stream object while a stream is open, a 300-member object stream, generation 65535, a multi-KiB escaped-name value; every argument incl. the byte slices given to Write is compared after Close",
- "C03": "the same programs, judged by ref/pdffile + ref/stdsec + independent codecs",
- "C04": "81 x 3 one-revision histories x 421 renderings (all knob pairs); 2 rev x 2 obj x 9 kind vectors x 22 renderings; 2 rev x 4 obj and 3 rev x 2 obj x all kind vectors x {default, objstm}; the 2- and 3-revision histories again with free entries of generation 65535; trailer entries of newest and of older revisions; 4 bodies x 11 length defects x 21 renderings; every body length 0..2200 x 4 defects x 2 EOLs",
+ "C02": "all programs of <= 1 operation x dev <= 1 over the 9 x 2 x 2 x 4 configuration matrix; <= 2 operations x dev <= 1 on a non-seekable 1.7 and a seekable RC4 1.4 configuration; <= 2 operations x dev 0 on 4 + 2 human-readable + encrypted representatives; Catalog/Info profiles (minimal, every admissible field, explicit defaults) x 9 versions x {plain, encrypted}; operations include Put of a stream object while a stream is open, a 300-member object stream, generation 65535, a hand-made reference with the next free number, a multi-KiB value with strings at depth 1-3; a fixed set of refused calls on other Writers runs before every program; every argument incl. the byte slices given to Write is compared after Close; every Catalog and Info field is compared",
+ "C03": "the same programs (without hand-made references), judged by ref/pdffile + ref/stdsec + independent codecs",
+ "C04": "81 x 3 one-revision histories x 421 renderings (all knob pairs); 2 rev x 2 obj x 9 kind vectors x 22 renderings; 2 rev x 4 obj and 3 rev x 2 obj x all kind vectors x {default, objstm}; the 2- and 3-revision histories again with free entries of generation 65535; trailer entries of newest and of older revisions; 4 bodies x 11 length defects x 21 renderings; every body length 0..2200 x 4 defects x 2 EOLs; every spelling of 40 strings over {a, LF, CR} as a literal string (raw EOLs, escapes, <= 1 line continuation)",
  "C05": "4 seeds x every single mutation of the menu x 4 open modes; crafted hostile structures (9 recursive structures x 36 link patterns x sizes 1..24 and up to 1000); one stream per filter chain of length <= 3 x 5 payloads; 11 k LZW table-state streams; crafted cross-reference wirings (/Prev, /XRefStm over <= 8 sections, every integer token of the sections) and /Length wirings (2 object streams, <= 2 stream nodes inside or outside them), each also behind 1..1000 bytes of prefix; all pairs of link rewirings on the first seed",
  "C06": "predictor grid, LZW boundaries, CCITT parameter product with all small bitmaps, 166 chains, chunkings (every cut into <= 3 writes through an overwritten transfer buffer; notes/C06.md)",
  "C07": "the C06 spaces restricted to algorithms with a second implementation, both directions; chunked writes (every cut into <= 3 writes) judged by the independent decoders",
@@ -20,7 +20,7 @@ WHAT = {
  "C15": "operators x operand tuples, adjacency pairs, triples, 19 850 inline-image data strings, splits, 5 866 reals by digit structure; Builder BFS to depth 6/5, every accepted history again with Harvest before one and two of its calls",
  "C16": "6 BFS profiles over page-tree writer histories",
  "C17": "all 2^14 key subsets x 2 entry points, number subsets, 1 281 size cases incl. 262 145; 2 828 writer-context cases (trees inside open streams, two trees, nested writes); 510 k reader programs (Lookup / All / next / abandon, <= 3 operations) on one FromFile",
- "C18": "27 scenarios; 2 threads unbounded, 3 threads preemption bound 2 (thorough: unbounded); race pass 300 x each scenario",
+ "C18": "28 scenarios; 2 threads unbounded, 3 threads preemption bound 2 (thorough: unbounded); race pass 300 x each scenario",
  "C19": "22 documents (incl. object-stream-heavy, AES, ciphertexts ending in CR/LF, hand-built indirect /DecodeParms and wrong /Length) x 4 scenarios (each with a caching Decode and a retry pass on the same Reader and Extractor) x every ReadAt index x 3 fault modes x 2 error kinds; write programs x every sink call x {fail from k, fail only k}",
  "C20": "every prefix of every document and 33 xref damages each; aligned documents: 24 small objects (10 streams with indirect /Length) behind a pad of every length 0..1100, every cut after the pad",
 }
